@@ -203,3 +203,17 @@ def path_leaves(pt):
             if ca is not None and not ca.is_lit:
                 out.extend(nested_leaves(ca.cond))
     return out
+
+
+def d12_flag(leaves):
+    """Known finding D12: a condition on a data type (or is_instance) whose argument is not a type has no spec form."""
+    for l in leaves:
+        vals = list(l.args) + list(l.kwargs.values())
+        flat = []
+        for a in vals:
+            flat.extend(a if isinstance(a, (list, tuple)) else [a])
+        if "DataType" in l.cls and (not flat or any(not isinstance(a, type) for a in flat)):
+            return True
+        if l.method in ("is_instance", "keys_is_instance") and any(not isinstance(a, type) for a in l.args):
+            return True
+    return False
